@@ -62,7 +62,10 @@ class Report:
             return
         d = os.path.join(VERIF, "replays")
         os.makedirs(d, exist_ok=True)
-        safe = "".join(ch if ch.isalnum() or ch in "-_." else "_" for ch in case)[:120]
+        import hashlib
+
+        safe = "".join(ch if ch.isalnum() or ch in "-_." else "_" for ch in case)[:80]
+        safe += "_" + hashlib.sha1(case.encode()).hexdigest()[:8]
         path = os.path.join(d, f"{self.prop}_{safe}.json")
         with open(path, "w") as f:
             json.dump({"property": self.prop, "case": case, "what": what, "replay": replay}, f, indent=1, default=str)
